@@ -39,7 +39,7 @@ type Node struct {
 	st  u.Stump
 	acc u.Utreexo
 	pol *u.Pollard
-	mp  *u.MapPollard
+	mp  *mapView
 
 	// light client
 	cp   u.Proof
@@ -105,9 +105,17 @@ func (w *World) initNode(n *Node) {
 		n.pol = &p
 		n.acc = n.pol
 	case "mapfull", "mappartial":
-		m := u.NewMapPollard(n.cfg.Kind == "mapfull")
-		n.mp = &m
-		w.configMap(n, n.mp)
+		if n.big() {
+			// embedded at a big offset: roots-only start (big.go, mapview.go)
+			op := n.bigRoots()
+			m := u.NewMapPollardFromRoots(append([]H(nil), op...), n.cfg.Big, false)
+			n.mp = &mapView{m: &m, B: n.cfg.Big, opaque: op, node: n}
+			w.rehome(n, &m)
+		} else {
+			m := u.NewMapPollard(n.cfg.Kind == "mapfull")
+			n.mp = &mapView{m: &m, node: n}
+			w.configMap(n, &m)
+		}
 		n.acc = n.mp
 		n.remembered = map[H]bool{}
 	default:
@@ -124,6 +132,16 @@ func (w *World) configMap(n *Node, m *u.MapPollard) {
 		m.Nodes = newDetNodes(sd)
 		m.CachedLeaves = newDetCached(sd ^ 0x77)
 	}
+}
+
+// rehome moves a freshly created from-roots forest into deterministic maps.
+func (w *World) rehome(n *Node, m *u.MapPollard) {
+	if !n.cfg.DetMaps {
+		return
+	}
+	dn, dc := newDetNodes(mix64(w.sc.Seed^uint64(n.idx+1))), newDetCached(mix64(w.sc.Seed^uint64(n.idx+7)))
+	m.Nodes.ForEach(func(k uint64, v u.Leaf) error { dn.Put(k, v); return nil })
+	m.Nodes, m.CachedLeaves = dn, dc
 }
 
 // guard runs a library call; a panic is converted into an error value.
@@ -249,15 +267,14 @@ func (w *World) bootPartial(n *Node, tip int) bool {
 func (w *World) bootPartialAt(n *Node, id int) {
 	st := w.blocks[id].Post
 	L := st.Layout()
-	roots := append([]H(nil), L.Roots...)
-	m := u.NewMapPollardFromRoots(roots, st.N, false)
-	if n.cfg.DetMaps {
-		// re-home into deterministic maps
-		dn, dc := newDetNodes(mix64(w.sc.Seed^uint64(n.idx+1))), newDetCached(mix64(w.sc.Seed^uint64(n.idx+7)))
-		m.Nodes.ForEach(func(k uint64, v u.Leaf) error { dn.Put(k, v); return nil })
-		m.Nodes, m.CachedLeaves = dn, dc
+	var op []H
+	if n.big() {
+		op = n.bigRoots()
 	}
-	n.mp = &m
+	roots := append(append([]H(nil), op...), L.Roots...)
+	m := u.NewMapPollardFromRoots(roots, n.cfg.Big+st.N, false)
+	w.rehome(n, &m)
+	n.mp = &mapView{m: &m, B: n.cfg.Big, opaque: op, node: n}
 	n.acc = n.mp
 	n.at = id
 	n.bootAt = id
@@ -369,6 +386,9 @@ func (w *World) applyBlock(n *Node, b *Block) {
 	w.stats.Events++
 	w.stats.Applies++
 	w.logf("%s: apply block %d", n.name, b.ID)
+	if n.big() {
+		w.stats.Reach["apply_on_node_at_big_offset_"+n.cfg.Kind]++
+	}
 	n.ops = append(n.ops, nodeOp{kind: "apply", block: b.ID})
 	n.ctxTarget, n.ctxSeed, n.twinCache = b.ID, mix64(w.sc.Seed^uint64(w.stats.Events)*0x9e37^uint64(n.idx)<<32), nil
 	switch n.cfg.Kind {
